@@ -237,13 +237,13 @@ func judge(c *caseSpec, m *model, exp *expectation, b *built, err error) (res re
 		case !c.Allow && len(exp.missing) > 0:
 			res.outcome = "aborted: a listed path does not exist (as selected)"
 			res.counts["aborts_on_missing_path"]++
+		case !c.Allow && len(exp.dangling) > 0 && strings.Contains(err.Error(), "not found"):
+			res.outcome = "aborted on a listed hardlink whose target has no entry (unclassified by the statement)"
+			res.counts["aborts_on_dangling_hardlink"]++
 		case !c.Allow && len(exp.implicitParent) > 0 && strings.Contains(err.Error(), "not found"):
 			res.outcome = "aborted although every listed path has an entry (implicit parent)"
 			res.add("existing-path-treated-as-missing:implicit-parent",
 				"Build aborted with %q although every listed path has a tar entry; %q sits under a directory that has no entry of its own", err.Error(), exp.implicitParent)
-		case !c.Allow && len(exp.dangling) > 0 && strings.Contains(err.Error(), "not found"):
-			res.outcome = "aborted on a listed hardlink whose target has no entry (unclassified by the statement)"
-			res.counts["aborts_on_dangling_hardlink"]++
 		case !c.Allow && len(exp.slack) > 0:
 			res.outcome = "aborted on a path the statement does not classify (root / implicit directory / landmark name)"
 			res.counts["aborts_on_unclassified_path"]++
